@@ -57,7 +57,7 @@ func (f *FuncInfo) BranchCond(b *cfg.Block) ast.Expr {
 	switch s := b.Succs[0].Stmt.(type) {
 	case *ast.IfStmt:
 		if s.Cond == last {
-			return last
+			return f.expandNamedConds(s, last) // `x := E; if x` reads as `if E` (namedcond.go)
 		}
 	case *ast.ForStmt:
 		if s.Cond == last {
